@@ -620,6 +620,18 @@ impl Drop for ServerWorker {
         crate::verif::emit(crate::verif::Ev::WorkerDrop {
             worker: self.counter.idx,
         });
+
+        // Connections still waiting in the queue have been counted by the accept thread. Release
+        // each of them together with a counter guard, as the shutdown drain does. Otherwise a
+        // worker that dies with queued connections keeps looking busy: with a low connection limit
+        // it looks saturated for good, nothing is ever sent to it again, its death is never
+        // noticed and no replacement is started.
+        self.conn_rx.close();
+        while let Ok(conn) = self.conn_rx.try_recv() {
+            let guard = self.counter.guard();
+            drop((conn, guard));
+        }
+
         Arbiter::try_current().as_ref().map(ArbiterHandle::stop);
     }
 }
